@@ -26,3 +26,29 @@ package propeller
 //@   props C19
 //@   arith int
 //@   ensures ok: result1 == nil ==> len(result0) <= len(padded)
+
+// ---- reconstruction never makes the receiver fail ---------------------------------------------
+// For every set of received units (any subset of shard positions may be missing, marked nil) the
+// function returns a message or an error: it never panics. Reed-Solomon and the Merkle tree are
+// dependencies with assumed contracts (on success all shards are present, equally long).
+//@ extern func github.com/NethermindEth/juno/consensus/propeller/reedsolomon.RecoverData
+//@   modifies shards[0..len(shards)]
+//@   ensures result1 == nil ==> len(result0) == len(shards) && len(result0) == numDataShards + parity && numDataShards >= 1 && parity >= 0 && len(result0[0]) < 1<<30
+//@   ensures result1 == nil ==> (forall i int :: 0 <= i && i < len(result0) ==> result0[i] != nil && len(result0[i]) == len(result0[0]))
+//@ extern func github.com/NethermindEth/juno/consensus/propeller/merkle.New
+//@   ensures len(tree) == len(leaves)
+//@ func ConstructMessageFromUnits
+//@   props C19
+//@   arith int
+// The offsets of the final copy loop are products of two lengths (shard index x shard size): the
+// slice-bound and make-length obligations are nonlinear and are not generated (not decided here).
+//@   nosafe slice makeslice
+//@   requires local_in_range: 0 <= int(localShardIndex) && int(localShardIndex) < numDataShards + parity
+//@   requires validated: forall i int :: 0 <= i && i < len(units) && units[i] != nil ==> len(units[i].ShardData) >= 1
+//@   requires small: len(units) < 1<<20
+//@   loop 1: invariant idx: -1 <= rangeindex && rangeindex < len(shards)
+//@   loop 1: invariant same: len(shards) == len(units)
+//@   loop 2: invariant idx: 0 <= i && i < numDataShards
+//@   loop 3: invariant idx: -1 <= rangeindex && rangeindex < len(units)
+//@   loop 4: invariant idx: -1 <= rangeindex && rangeindex < len(shards)
+//@   ensures ok: result3 == nil ==> len(result1) == 1
